@@ -8,6 +8,8 @@ import Rip.Lemmas.StoreLTS
 import Rip.Cex.C01
 import Rip.Gen.EffectOrder
 import Rip.Lemmas.Emitters
+import Rip.Lemmas.SeqAcct
+import Rip.Gen.SeqAccounting
 namespace Rip.Props.C01
 open Rip.StoreLTS
 
@@ -105,5 +107,32 @@ theorem emitted_streams_complete (counts sched : List Nat)
     (hd : Rip.Emitters.allDone (Rip.Emitters.run true counts sched) = true) :
     (Rip.Emitters.run true counts sched).recorded = List.range counts.sum :=
   (Rip.Emitters.complete counts sched hd).2
+
+/-! ### frames numbered from a counter passed by reference (session, tool and task helpers) -/
+
+/-- A helper that follows the discipline "frame literal numbered with the bare counter, then `+= 1`"
+(batches standing alone) numbers its frames `n, n+1, …` and leaves the counter right behind the last
+one, for every start value and all batch sizes: the next helper continues without gap or duplicate. -/
+theorem counted_frames_numbered (ts : List Rip.SeqAcct.Tok) (ms : List Nat) (n : Nat)
+    (h : Rip.SeqAcct.wellFormed ts = true) :
+    (Rip.SeqAcct.run ts ms ⟨n, []⟩).frames = List.range' n (Rip.SeqAcct.run ts ms ⟨n, []⟩).frames.length ∧
+    (Rip.SeqAcct.run ts ms ⟨n, []⟩).ctr = n + (Rip.SeqAcct.run ts ms ⟨n, []⟩).frames.length :=
+  Rip.SeqAcct.numbered ts ms n h
+
+/-- **obligation over the regenerated source**: every function of session.rs, rip-tools runtime.rs,
+tasks/mod.rs and checkpoints.rs that numbers frames from a dereferenced counter follows that
+discipline on every counter it touches (token lists re-extracted by ripx on every run); the helpers
+known to do so are present (refused tool call, tool runtime emit, task emit, request stream). -/
+theorem gen_seq_accounting :
+    Rip.Gen.SeqAccounting.table.all (fun r => Rip.SeqAcct.fnWellFormed r.2) = true ∧
+    7 ≤ Rip.Gen.SeqAccounting.table.length ∧
+    [735412676739990525, 3566688996211562816, 16348414479796277976, 9139488890823917958].all
+      (fun h => (Rip.Gen.SeqAccounting.table.map (·.1)).contains h) = true := by decide
+
+/-- what the discipline excludes: the second frame of a pair numbered `counter + 1` with a single
+`+= 1` behind the pair — the next frame of the stream then repeats a seq -/
+example : Rip.SeqAcct.wellFormed [.use true, .use false, .bump 1] = false ∧
+    (Rip.SeqAcct.run [.use true, .use false, .bump 1, .use true, .bump 1] [] ⟨7, []⟩).frames = [7, 8, 8] := by
+  decide
 
 end Rip.Props.C01
